@@ -27,3 +27,13 @@ Theorem C03_parse_of_rendering : forall pf v, wf_shape v = true -> no_float v = 
   parse_value (to_string_t pf v) = Ok (unsign v) /\ cmp_value (unsign v) v = Eq.
 Proof. intros pf v Hw Hn. split; [exact (parse_render_roundtrip pf v Hw Hn)|exact (unsign_equal v)]. Qed.
 Print Assumptions C03_parse_of_rendering.
+
+(* the pretty rendering (two-space indentation, one member per line, ": " after keys) differs from the compact one only
+   in whitespace the reader skips: both read back as the same document *)
+Theorem C03_pretty_and_compact_denote_the_same : forall pf v, wf_shape v = true -> no_float v = true ->
+  parse_value (to_pretty_string_t pf v) = Ok (unsign v) /\ parse_value (to_pretty_string_t pf v) = parse_value (to_string_t pf v).
+Proof.
+  intros pf v Hw Hn. split; [exact (parse_pretty_roundtrip pf v Hw Hn)|].
+  rewrite (parse_pretty_roundtrip pf v Hw Hn), (parse_render_roundtrip pf v Hw Hn). reflexivity.
+Qed.
+Print Assumptions C03_pretty_and_compact_denote_the_same.
